@@ -752,9 +752,36 @@ fn case<T: BT>(scen: &str, run: Run) -> Case {
 }
 
 include!("../c05/types.in");
+include!("../c05/sites.rs");
+
+/// Class representatives of the read-site / private-copy scenarios: one type per
+/// boundary type family (the seven scalar kinds, by-reference plain data, clone
+/// types, zero-sized / copy / clone registered types, each enum, a list) x every
+/// site shape x every source. They run first and with a fixed seed (`rep:` cases
+/// ignore `VERIF_SEED`; their values are the edge tables).
+fn rep_cases(cases: &mut Vec<Case>) {
+    fn rep<T: BT>(scen: &str, run: Run) -> Case {
+        Case { name: format!("rep:{scen} {}", T::desc().roto()), run }
+    }
+    macro_rules! any_type { ($($t:ty);* $(;)?) => { $(
+        cases.push(rep::<$t>("sites-const", sc_sites_const::<$t>));
+        cases.push(rep::<$t>("sites-arg", sc_sites_arg::<$t>));
+        cases.push(rep::<$t>("alias-const", sc_alias_const::<$t>));
+        cases.push(rep::<$t>("alias-rec", sc_alias_record_const::<$t>));
+    )* } }
+    any_type!(u8; u32; i64; f64; bool; char; Asn; IpAddr; Prefix; RotoString; (); Val<Z0>; Val<W4>; Val<X16>; Val<Hs>;
+        Option<u32>; Option<IpAddr>; Result<u8, u64>; Verdict<IpAddr, u32>; List<u8>);
+    macro_rules! ctx_type { ($($t:ty);* $(;)?) => { $(
+        cases.push(rep::<$t>("sites-ctx", sc_sites_ctx::<$t>));
+        cases.push(rep::<$t>("alias-ctxA", sc_alias_ctx_a::<$t>));
+        cases.push(rep::<$t>("alias-ctxC", sc_alias_ctx_c::<$t>));
+    )* } }
+    ctx_type!(u8; u32; i64; f64; bool; char; Asn; IpAddr; Prefix; RotoString; Val<Z0>; Val<W4>; Val<X16>; Val<Hs>);
+}
 
 fn cases() -> Vec<Case> {
     let mut cases: Vec<Case> = vec![];
+    rep_cases(&mut cases);
     macro_rules! light { ($($t:ty);* $(;)?) => { $(
         cases.push(case::<$t>("identity", sc_identity::<$t>));
         cases.push(case::<$t>("echo", sc_echo::<$t>));
@@ -781,6 +808,21 @@ fn cases() -> Vec<Case> {
     cases.push(Case { name: "ctxderive declared".into(), run: sc_dctx1 });
     cases.push(Case { name: "ctxderive reversed".into(), run: sc_dctx2 });
     cases.push(Case { name: "ctxderive repr-C".into(), run: sc_dctx3 });
+    // the read-site / private-copy scenarios over the whole family
+    macro_rules! sites { ($($t:ty);* $(;)?) => { $(
+        cases.push(case::<$t>("sites-const", sc_sites_const::<$t>));
+        cases.push(case::<$t>("sites-arg", sc_sites_arg::<$t>));
+        cases.push(case::<$t>("alias-const", sc_alias_const::<$t>));
+    )* } }
+    all_types!(sites);
+    macro_rules! sites_ctx { ($($t:ty);* $(;)?) => { $(
+        cases.push(case::<$t>("sites-ctx", sc_sites_ctx::<$t>));
+        cases.push(case::<$t>("alias-ctxA", sc_alias_ctx_a::<$t>));
+        cases.push(case::<$t>("alias-ctxC", sc_alias_ctx_c::<$t>));
+    )* } }
+    ctx_types!(sites_ctx);
+    macro_rules! recs { ($($t:ty);* $(;)?) => { $( cases.push(case::<$t>("alias-rec", sc_alias_record_const::<$t>)); )* } }
+    wrap_types!(recs);
     cases
 }
 
@@ -1227,6 +1269,9 @@ fn run_range(env: &Env, from: u64, n: u64) -> Report {
         use std::io::Write;
         std::io::stdout().flush().ok();
         let before = rep.impl_violations.len() + rep.model_mismatches.len();
+        // class representatives do not depend on the seed
+        let rep_env = Env { seed: 0, rounds: env.rounds };
+        let env = if c.name.starts_with("rep:") { &rep_env } else { env };
         let r = std::panic::catch_unwind(std::panic::AssertUnwindSafe(|| (c.run)(env, &mut rep, &c.name)));
         if r.is_err() {
             rep.violation("panic while a value crossed the boundary", &format!("panic:{}", c.name.split(' ').next().unwrap_or("")), json!({"case": c.name, "panic": LAST_PANIC.with(|l| l.borrow().clone())}));
@@ -1269,6 +1314,7 @@ fn main() {
             let mut rep = Report::default();
             facts(&mut rep, &tier);
             roundtrip_model(&mut rep, seed.parse().unwrap(), if tier == "thorough" { 200 } else { 24 });
+            provenance(&mut rep);
             let total = cases().len() as u64;
             let names: Vec<String> = cases().into_iter().map(|c| c.name).collect();
             // crash-isolated batches; a tree on which many cases die is not explored to the end
@@ -1278,7 +1324,7 @@ fn main() {
             while from < total {
                 let n = 150.min(total - from);
                 let (f, c) = (from.to_string(), n.to_string());
-                let (ended, out) = worker::run_worker_keep_stdout(&[&seed, &tier, &f, &c], Duration::from_secs(60));
+                let (ended, out) = worker::run_worker_keep_stdout(&[&seed, &tier, &f, &c], Duration::from_secs(300));
                 if let Some(v) = Report::parse_stdout(&out) {
                     rep.merge_json(&v);
                 }
